@@ -86,6 +86,7 @@ func (rm *RpcMultiplexer) CallUnaryMethod(
 
 	rm.registerHandler(streamId, respChan)
 	defer rm.unregisterHandler(streamId)
+	defer rm.drainHandler(respChan)
 
 	rpc := goatorepo.Rpc{
 		Id:     streamId,
@@ -147,6 +148,7 @@ func (rm *RpcMultiplexer) NewStreamReadWriter(
 	rm.registerHandler(streamId, respChan)
 
 	teardown := func() {
+		rm.drainHandler(respChan)
 		rm.unregisterHandler(streamId)
 	}
 
@@ -209,6 +211,21 @@ func (rm *RpcMultiplexer) registerHandler(id uint64, c chan *goatorepo.Rpc) {
 	defer rm.mutex.Unlock()
 
 	rm.handlers[id] = c
+}
+
+// drainHandler discards whatever is still delivered to c until c is closed.
+// The read loop delivers while holding rm.mutex, so once a call has stopped
+// reading c (it is about to unregister, which needs the mutex) one more
+// envelope for it would block the read loop, the unregistration and every other
+// call on the connection forever.
+func (rm *RpcMultiplexer) drainHandler(c chan *goatorepo.Rpc) {
+	go func() {
+		for {
+			if _, ok := <-c; !ok {
+				return
+			}
+		}
+	}()
 }
 
 func (rm *RpcMultiplexer) unregisterHandler(id uint64) {
